@@ -23,7 +23,7 @@ import (
 	kit "github.com/liftbridge-io/liftbridge/internal/verifkit"
 )
 
-const c18Rule = "each scenario runs a real in-process server (own NATS server, Raft, BoltDB log store) with the activity stream enabled and issues a seeded program of create / delete / pause / resume-by-publish / set-read-only / consumer-group join / leave operations (plus what the server commits on its own: creation of __activity and __cursors, auto-pause, consumer expiry) through the in-process API while the hooks in publishActivityEvent inject a bounded number of publish failures and published-but-not-recorded faults (at most 2 per event: back-off 1 s + 2 s) and the controller is restarted / failed over at seeded positions; after the faults stop a fence operation is committed and awaited; oracle: the committed part of __activity read from offset 0 is compared with the committed Raft log (RaftLogListener entries stitched with the Raft log store by index): every event id is the index of a committed listed operation and carries exactly that operation's fields, first occurrences have strictly increasing ids, every listed operation up to the fence has an event; non-trivial = scenario completed without watchdog, >=6 operations accepted and >=1 injected fault / restart / failover; distinct = program text + fault counts"
+const c18Rule = "each scenario (one child process each) runs a real in-process server (own NATS server, Raft, BoltDB log store) with the activity stream enabled and issues a seeded program of create / delete / pause / resume-by-publish / set-read-only / consumer-group join / leave operations (plus what the server commits on its own: creation of __activity and __cursors, auto-pause, consumer expiry) through the in-process API while the hooks in publishActivityEvent inject a bounded number of publish failures and published-but-not-recorded faults (at most 2 per event: back-off 1 s + 2 s) and the controller is restarted / failed over at seeded positions; after the faults stop a fence operation is committed and awaited; oracle: what a subscription to __activity from the earliest offset delivers (SubscribeInternal on the partition leader; the committed log read only paces the waiting) is compared with the committed Raft log (RaftLogListener entries stitched with the Raft log store by index): every event id is the index of a committed listed operation and carries exactly that operation's fields, first occurrences have strictly increasing ids, every listed operation up to the fence has an event; non-trivial = scenario completed without watchdog, >=6 operations accepted and >=1 injected fault / restart / failover; distinct = program text + fault counts"
 
 // c18Single runs one single-server scenario.
 func c18Single(rep *kit.Report, run int, seed uint64) {
@@ -99,7 +99,6 @@ func TestVerifC18Single(t *testing.T) {
 	defer rep.Write()
 	rep.SetRule(c18Rule)
 	rep.Assume("the workload never deletes __activity or makes it read-only (the API refuses the former; the latter stops the feed by configuration)")
-	rep.Assume("what a subscriber from offset 0 is served = the committed part of the __activity partition log on its leader (delivery of committed messages is C03's subject)")
 	root := kit.NewRNG(kit.Mix(kit.Seed(), 0xC18))
 	n := kit.Scale(32, 360)
 	specs := make([]c18ChildSpec, n)
@@ -333,6 +332,13 @@ func c18Cluster(rep *kit.Report, run int, seed uint64) {
 	if rng.Chance(2, 3) {
 		transferAt = rng.Range(2, nops-1)
 	}
+	// a quarter of the scenarios also "flap": leadership is handed on again the
+	// moment Raft reports a new leader, i.e. while that server is still in its
+	// leader promotion (leadershipAcquired -> activity.BecomeLeader)
+	flapAt, flaps := -1, 0
+	if run%4 == 3 {
+		flapAt, flaps = rng.Range(2, nops-2), rng.Range(3, 6)
+	}
 	stopped := ""
 	bad := func() bool {
 		e.mu.Lock()
@@ -381,6 +387,36 @@ func c18Cluster(rep *kit.Report, run int, seed uint64) {
 				}
 			}
 		}
+		if i >= flapAt && flapAt >= 0 && stopped == "" {
+			flapAt = -1
+			done := 0
+			for k := 0; k < flaps; k++ {
+				var rl *Server
+				vfWait(15*time.Second, func() bool {
+					for _, n := range c.Running() {
+						if srv := n.Server(); srv != nil && srv.getRaft() != nil && srv.getRaft().State() == raft.Leader {
+							rl = srv
+							return true
+						}
+					}
+					return false
+				})
+				if rl == nil {
+					break
+				}
+				if err := rl.getRaft().LeadershipTransfer().Error(); err != nil {
+					e.logf("flap %d: transfer from %s: %v", k, e.nodeOf(rl), err)
+				} else {
+					done++
+				}
+				time.Sleep(time.Duration(rng.Range(0, 250)) * time.Millisecond)
+			}
+			e.mu.Lock()
+			e.failovers += done
+			e.mu.Unlock()
+			e.step("flap(x%d)", done)
+			e.rep.Count("leadership_flaps", int64(done))
+		}
 		e.doOp(e.genOp(3, false))
 		if rng.Chance(1, 4) {
 			time.Sleep(time.Duration(rng.Range(50, 300)) * time.Millisecond)
@@ -395,7 +431,7 @@ func c18Cluster(rep *kit.Report, run int, seed uint64) {
 func TestVerifC18Cluster(t *testing.T) {
 	rep := kit.NewReport("C18", "cluster")
 	defer rep.Write()
-	rep.SetRule(c18Rule + " ; cluster unit: 3 servers, bootstrapped from a peer list (even scenarios: __activity replicated on all three, ack policy ALL) or from a seed server (odd scenarios: the first controller is the only replica of __activity); the metadata leader is stopped at a seeded position (the new controller resumes from the replicated last-published index), leadership is also transferred gracefully (2/3 of the scenarios) and the stopped server is restarted (always when it is the only replica of __activity, else 3/4)")
+	rep.SetRule(c18Rule + " ; cluster unit: 3 servers, bootstrapped from a peer list (even scenarios: __activity replicated on all three, ack policy ALL) or from a seed server (odd scenarios: the first controller is the only replica of __activity); the metadata leader is stopped at a seeded position (the new controller resumes from the replicated last-published index), leadership is also transferred gracefully (2/3 of the scenarios), handed on 3..6 times in a row while the new leader is still in its promotion (every 4th scenario) and the stopped server is restarted (always when it is the only replica of __activity, else 3/4)")
 	rep.Assume("a server is removed with Server.Stop(); NATS-level network partitions are not simulated")
 	root := kit.NewRNG(kit.Mix(kit.Seed(), 0xC18C))
 	n := kit.Scale(4, 40)
@@ -476,7 +512,7 @@ func c18RunChildren(rep *kit.Report, unit string, specs []c18ChildSpec, workers 
 			return
 		}
 		timedOut := false
-		timer := time.AfterFunc(10*time.Minute, func() { timedOut = true; cmd.Process.Signal(syscall.SIGQUIT) })
+		timer := time.AfterFunc(5*time.Minute, func() { timedOut = true; cmd.Process.Signal(syscall.SIGQUIT) })
 		werr := cmd.Wait()
 		timer.Stop()
 		rep.Eval()
@@ -499,7 +535,7 @@ func c18RunChildren(rep *kit.Report, unit string, specs []c18ChildSpec, workers 
 		replay := map[string]any{"child_spec": spec, "stage": string(stage), "replay_hint": fmt.Sprintf("VERIF_SEED=%d C18_ONLY=%d ./check C18 --unit %s", kit.Seed(), i, unit)}
 		switch {
 		case timedOut:
-			rep.Inconc(fmt.Sprintf("watchdog: %s child %d did not finish (stage %s): %s", unit, i, stage, c18Tail(text, 1500)))
+			rep.Inconc(fmt.Sprintf("watchdog: %s child %d did not finish (stage %s); blocked server goroutines: %s", unit, i, stage, c18HangSummary(text)))
 		case child.Completed:
 			rep.Count("children_completed", 1)
 			for k, v := range child.Counts {
@@ -554,6 +590,42 @@ func c18RunChildren(rep *kit.Report, unit string, specs []c18ChildSpec, workers 
 			}
 		}
 	})
+}
+
+// c18HangSummary extracts from a SIGQUIT goroutine dump the goroutines that sit
+// in Server.Stop or wait for a lock inside the server package.
+func c18HangSummary(dump string) string {
+	var sb strings.Builder
+	for _, g := range strings.Split(dump, "\n\ngoroutine ") {
+		if !strings.Contains(g, "liftbridge/server.") {
+			continue
+		}
+		head := g
+		if i := strings.Index(head, "\n"); i > 0 {
+			head = head[:i]
+		}
+		if !(strings.Contains(g, ").Stop(") || strings.Contains(head, "Lock") || strings.Contains(head, "semacquire") || strings.Contains(head, "WaitGroup")) {
+			continue
+		}
+		var frames []string
+		for _, ln := range strings.Split(g, "\n") {
+			if strings.Contains(ln, "liftbridge/server.") && !strings.HasPrefix(ln, "\t") && !strings.Contains(ln, "zz_verif") {
+				fn := ln
+				if i := strings.LastIndex(fn, "("); i > 0 {
+					fn = fn[:i]
+				}
+				frames = append(frames, fn[strings.LastIndex(fn, "/")+1:])
+			}
+		}
+		fmt.Fprintf(&sb, "[%s: %s] ", head, strings.Join(frames, " <- "))
+		if sb.Len() > 3500 {
+			break
+		}
+	}
+	if sb.Len() == 0 {
+		return c18Tail(dump, 1200)
+	}
+	return sb.String()
 }
 
 func c18Tail(s string, n int) string {
